@@ -121,7 +121,7 @@ def save_fault_point(k: int, dest_exists: bool) -> bool:
 
 
 NATURAL = ("unencodable", "bad_keyfile", "unknown_format", "missing_keydir", "ok_json", "ok_xml", "ok_yaml",
-           "ok_bson", "ok_pickle")
+           "ok_bson", "ok_pickle", "xml_bad_char", "xml_bad_key", "bson_big_int", "yaml_ok_weird")
 
 
 @obligation(prop="C19", sites=("fault", "nofault"), encodes=ENC, stubs=("FakeFS",),
@@ -131,7 +131,7 @@ NATURAL = ("unencodable", "bad_keyfile", "unknown_format", "missing_keydir", "ok
                  "in the five real formats write exactly dumps() and load back equal")
 def save_natural_faults(case: int, dest_exists: bool) -> bool:
     """
-    pre: 0 <= case < 9
+    pre: 0 <= case < 13
     post: _
     """
     name = NATURAL[0]
@@ -154,6 +154,18 @@ def save_natural_faults(case: int, dest_exists: bool) -> bool:
             cfg.extra = {1, 2}  # a set: no format-independent plain-data form; json cannot encode it
         elif name == "unknown_format":
             fmt = "toml"
+        elif name == "xml_bad_char":
+            fmt = "xml"
+            cfg.sub.b = "vertical\x0btab"          # a character XML 1.0 cannot carry: outside the format's domain
+        elif name == "xml_bad_key":
+            fmt = "xml"
+            cfg.extra = {"1 not a name": 5}        # a map key that is not an XML name
+        elif name == "bson_big_int":
+            fmt = "bson"
+            cfg.a = 2 ** 70                        # beyond 64 bits
+        elif name == "yaml_ok_weird":
+            fmt = "yaml"
+            cfg.sub.b = "vertical\x0btab: [x"
         elif name.startswith("ok_"):
             fmt = name[3:]
         opens_before = len(fs.opens)
@@ -163,6 +175,8 @@ def save_natural_faults(case: int, dest_exists: bool) -> bool:
         except Exception as exc:  # noqa: BLE001
             raised = exc
         wrote = [m for p, m in fs.opens[opens_before:] if p == DEST and ("w" in m or "a" in m or "+" in m)]
+        if name == "yaml_ok_weird":
+            name = "ok_yaml"
         if name.startswith("ok_"):
             hold("nofault", raised is None, lambda: "save failed: %r" % (raised,))
             content = fs.files.get(DEST)
